@@ -10,7 +10,7 @@
 (* only checks that the whole trace was consumed.                          *)
 (*   TRACE=<file> tlc -workers 1 -config TraceQueue.cfg TraceQueue.tla     *)
 (***************************************************************************)
-EXTENDS Ops, Json, IOUtils
+EXTENDS Ops, IterProto, Json, IOUtils
 
 Rec == ndJsonDeserialize(IOEnv.TRACE)
 NoDrift == "NODRIFT" \in DOMAIN IOEnv
@@ -155,14 +155,31 @@ StepAppend ==
         /\ con' = Upd(Upd(con, q, ConOrElse(Empty)), o, IF "osnap" \in DOMAIN e THEN SnapCon(e.osnap) ELSE Empty)
         /\ ord' = Upd(Upd(ord, q, TRUE), o, TRUE)
 
-\* engine C events are validated by IterProto.tla; here they only update the contents
+\* iterator call sequences (engine C): the protocol contract of IterProto.tla, plus the effect on the
+\* queue: drain empties it as soon as it is called, however much is consumed; the others leave the contents
 StepIterCalls ==
-  /\ e.op \in {"iter_calls", "into_calls", "balance"}
-  /\ LET q == e.q IN
-     IF e.op = "iter_calls" /\ Live(q) /\ e.hs = 1
-     THEN /\ abs' = Upd(abs, q, SnapOrElse(abs[q])) /\ con' = Upd(con, q, SnapCon(e.snap))
-          /\ ord' = Upd(ord, q, IF e.it \in {"iter_mut", "iter_mut_ref"} /\ e.forget THEN FALSE ELSE ord[q])
-     ELSE UNCHANGED <<abs, con, ord>>
+  /\ e.op \in {"iter_calls", "into_calls"}
+  /\ LET q == e.q
+         a == abs[q]
+         isDrain == e.op = "iter_calls" /\ e.it = "drain"
+         isMut == e.op = "iter_calls" /\ e.it \in {"iter_mut", "iter_mut_ref"}
+         ordered == IF isDrain THEN TRUE ELSE IF isMut THEN ~e.forget ELSE ord[q]
+         expected == IF isDrain THEN EmptyMap ELSE a
+         tags == ProtoFails(e.res, Elems(a), e.adapt, e.k, e.panic = 1)
+                 \cup (IF e.it = "sorted" /\ e.adapt \in {"", "none"} THEN OrderWalk(e.res, 1, Elems(a), e.kind) ELSE {})
+                 \cup (IF e.op = "iter_calls" /\ e.hs = 1
+                       THEN LET sf == SnapFails(e.snap, e.kind, expected, ordered, Empty) IN
+                            IF isDrain /\ sf \cap {"contents", "payload", "tag"} # {} THEN (sf \ {"contents", "payload", "tag"}) \cup {"drain_not_empty"} ELSE sf
+                       ELSE {})
+     IN /\ Report(tags, e.kind)
+        /\ IF e.op = "iter_calls"
+           THEN /\ Adopt(q, tags, expected) /\ ord' = Upd(ord, q, ordered)
+           ELSE UNCHANGED <<abs, con, ord>>
+
+StepBalance ==
+  /\ e.op = "balance"
+  /\ Report(IF e.queues = 0 /\ (e.live_items # 0 \/ e.live_pris # 0) THEN {"drop_balance"} ELSE {}, "none")
+  /\ UNCHANGED <<abs, con, ord>>
 
 StepOp ==
   /\ e.op \notin {"reset", "new", "from_vec", "from_iter", "de", "clone", "drop", "forget_queue",
@@ -181,7 +198,7 @@ StepOp ==
 
 Init == l = 1 /\ abs = [x \in {} |-> 0] /\ con = [x \in {} |-> 0] /\ ord = [x \in {} |-> TRUE]
 Next == /\ l <= Len(Rec) /\ l' = l + 1
-        /\ (StepReset \/ StepCreate \/ StepClone \/ StepDrop \/ StepEq \/ StepAppend \/ StepIterCalls \/ StepOp)
+        /\ (StepReset \/ StepCreate \/ StepClone \/ StepDrop \/ StepEq \/ StepAppend \/ StepIterCalls \/ StepBalance \/ StepOp)
 
 Accepted == IF TLCGet("stats").diameter - 1 = Len(Rec) THEN PrintT(<<"CONSUMED", Len(Rec)>>)
             ELSE Print(<<"STUCK", TLCGet("stats").diameter, Rec[TLCGet("stats").diameter].op>>, FALSE)
